@@ -1788,7 +1788,9 @@ Proof.
     split; [tw_proj; intros; try discriminate; try congruence; auto|];
     split; [tw_proj; intros; try discriminate; split; try reflexivity; congruence|];
     split; [unfold tw_cidle; tw_proj; intro Hid; try discriminate Hid; right;
-            unfold tw_unprocessed, tw_cdone; tw_proj; rewrite ?Ecpc, ?Eh; repeat split; try reflexivity; congruence|];
+            unfold tw_unprocessed, tw_cdone; tw_proj; rewrite ?Ecpc;
+            repeat match goal with H : tw_held _ = _ |- _ => rewrite ?H; clear H end;
+            repeat split; try reflexivity; congruence|];
     intros m Hm; tw_proj; apply tw_app_self_nil in Hm; discriminate].
   - (* CLockM *)
     match type of HS with match ?X with _ => _ end = _ => destruct X as [s3|f] eqn:EX end; injection HS as <-.
@@ -1798,7 +1800,7 @@ Proof.
         destruct (tw_held s3) eqn:Eh3; [discriminate|].
         assert (Hab : abs (tw_q (tw_set_cpc s3 TwCUnlockM)) = []).
         { eapply (tw_lockM_empty cap s); eauto. }
-        unfold tw_unprocessed, tw_cdone. tw_proj. rewrite Eh3. exact Hab.
+        unfold tw_unprocessed, tw_cdone. tw_proj. rewrite ?Eh3. exact Hab.
       * intros m Hm. rewrite Es3 in Hm. tw_proj. apply tw_app_self_nil in Hm. discriminate.
     + split; [reflexivity|]. split; [tw_proj; rewrite Ecpc; discriminate|]. split; [tw_proj; rewrite Ecpc; discriminate|].
       split; [unfold tw_cidle; tw_proj; rewrite Ecpc; discriminate|].
@@ -1814,3 +1816,43 @@ Proof.
     split; [unfold tw_cidle; tw_proj; rewrite Ecpc; discriminate|].
     intros m Hm. tw_proj. apply tw_app_self_nil in Hm. discriminate.
 Qed.
+
+Lemma tw_live_cstep : forall fx cap s s', tw_all_inv cap s -> tw_live_inv fx s -> tw_cstep s = Some s' -> tw_live_inv fx s'.
+Proof.
+  intros fx cap s s' HA (W0 & W1 & W2 & J1 & Q2 & O1 & D1) HS.
+  destruct HA as (HL & HF & HH & HW & (K1 & K2 & K3 & K4 & K5) & HJ).
+  pose proof (tw_cstep_prods _ _ HS) as Hp.
+  destruct (tw_cstep_facts _ _ HS) as (Htr & Ha & Hdone & Hq2 & Hq1 & Hap).
+  destruct (tw_cstep_live_facts _ _ _ HF HS) as (Hop & Hwc & Hwr & Hid & Hk0).
+  split; [|split; [|split; [|split; [|split; [|split]]]]].
+  - exact Hwc.
+  - intros Ec Es Ef. destruct (Hwr Ec) as (Ec0 & Efl). rewrite Efl, (W0 Ec0) in Ef. discriminate.
+  - intros Hidle Hun. destruct (Hid Hidle) as [(_ & Hem)|(Hi0 & Hu0 & Hf0)]; [contradiction|].
+    rewrite Hu0 in Hun. rewrite Hf0, Hp. apply W2; auto.
+  - intros Hfx i p Hn Hcl Hnd. rewrite Hp in Hn. destruct (J1 Hfx i p Hn Hcl Hnd) as (e & Hin & Hk). exists e. rewrite Ha. auto.
+  - intros (m & Hin & Hk). unfold tw_processed in Hin. destruct Hap as [Hap|(m' & Hap)]; rewrite Hap in Hin.
+    + apply Hq2. apply Q2. exists m. auto.
+    + rewrite tw_msgs_of_app in Hin. apply in_app_or in Hin. destruct Hin as [Hin|[<-|[]]].
+      * apply Hq2. apply Q2. exists m. auto.
+      * eapply Hk0; eauto.
+  - intros Ho i p Hn. rewrite Hp in Hn. rewrite Hop in Ho. eauto.
+  - destruct D1 as (p0 & Hn0 & D1). exists p0. rewrite Hp. split; [exact Hn0|].
+    destruct D1 as [D1|(Hd & Hcd & Ho)]; [left; exact D1|].
+    exfalso. unfold tw_cstep in HS. rewrite Hcd in HS. discriminate.
+Qed.
+
+Lemma tw_live_init : forall fx cap progs, tw_wf_live progs -> tw_live_inv fx (tw_init cap progs).
+Proof.
+  intros fx cap progs (cs & rest & -> & Hec). unfold tw_live_inv, tw_init, tw_cidle, tw_unprocessed, tw_cdone, tw_processed, tw_has_close. tw_proj.
+  assert (Hst : forall i p, nth_error (map (fun cs0 => tw_mk_pt TwPStart cs0 0) (cs :: rest)) i = Some p -> tw_pt_pc p = TwPStart).
+  { intros i p E. apply nth_error_In, in_map_iff in E. destruct E as (c0 & <- & _). reflexivity. }
+  split; [discriminate|]. split; [discriminate|]. split.
+  { intros _ Hun. exfalso. apply Hun. destruct (init_MInv cap) as (es & HR & _).
+    - (* any capacity: abs of the zeroed buffer with head = tail = 0 is empty *)
+      admit.
+    - admit. }
+  split. { intros _ i p Hn Hcl. rewrite (Hst _ _ Hn) in Hcl. discriminate. }
+  split. { intros (m & [] & _). }
+  split. { intros _. exact Hst. }
+  exists (tw_mk_pt TwPStart cs 0). split; [reflexivity|]. left. split; [discriminate|exact Hec].
+Abort.
